@@ -67,9 +67,9 @@ CHECKS = {
         "level": "exploration",
         "technique": "exhaustive URI-spelling sweep + hypothesis URIs; containment oracle (realpath), secret-marker scan, sys audit hook on opens/creates",
         "text": ("Every URI of <=3 (quick) / <=4 (thorough) segments over 11 segment kinds x separator per gap (/ // \\) x 6 leading x 2 "
-                 "trailing spellings, plus 'climb' and absolute-path families and hypothesis-drawn URIs of <=8 segments, is used directly "
+                 "trailing spellings, plus 'climb', 'cancel' (names and '..' runs joined by different separators) and absolute-path families and hypothesis-drawn URIs of <=8 segments, is used directly "
                  "(get_template / has_template) and from calling templates at depth 0..3 through <%include>, <%inherit>, <%namespace> "
-                 "(name / import), get_namespace, get_template and include_file, under module_directory on/off, one or two roots and 7 root "
+                 "(name / import), get_namespace, get_template and include_file, under module_directory on / off / modulename_callable, one or two roots and 7 root "
                  "spellings. Either TemplateLookupException is raised or the returned template's realpath lies inside a configured root; "
                  "no output or source contains the secret marker that every outside file carries; an audit hook sees no open of an outside "
                  "file and no create/rename outside the module directory (and blocks such writes). The bounded URI space is swept completely."),
@@ -79,13 +79,17 @@ CHECKS = {
     "C16": {
         "level": "exploration",
         "technique": "harness-owned deterministic thread scheduler: exhaustive DFS over coarse scheduling points + hypothesis-drawn line-level preemption schedules",
-        "text": ("Worker threads run one at a time under vf.gen.sched (baton hand-over at scheduling points; the lookup mutex is replaced "
-                 "by a cooperative lock that reports blocking, so deadlock is detected). For five lookup scenarios (first load of one "
+        "text": ("Worker threads run one at a time under vf.gen.sched (baton hand-over at scheduling points; threading.Lock inside "
+                 "mako.lookup is patched so that every lock the lookup creates, whenever it creates it, is a cooperative lock that "
+                 "reports blocking - deadlock and a second lock are detected). For five lookup scenarios (first load of one "
                  "URI, different URIs, modification + get_template racing get_template on a simulated whole-second clock, failing "
                  "compile, bounded lookup) x 2-3 threads x variants, ALL interleavings at lock acquire/release, os.stat/isfile and "
                  "Template construction are enumerated by DFS re-execution; at line granularity inside mako/lookup.py and mako/util.py "
                  "(and mako/runtime.py + the generated module for concurrent renders of generated templates with distinct contexts) "
-                 "hypothesis-drawn preemption schedules are run. Per call: complete template, version between call start and return, "
+                 "hypothesis-drawn preemption schedules are run, plus systematic sweeps: every single-preemption schedule of the modify-race / "
+                 "failing-compile / vanishing-file scenarios and of first-use renders (cached defs with own arguments, relative include / "
+                 "inherit / namespace from a sub-directory), every two-preemption schedule of the two-thread first-load and modify-race "
+                 "scenarios (strided in quick). Per call: complete template, version between call start and return, "
                  "documented exceptions only, single construction and shared object for simultaneous first requests, renders equal "
                  "solo output, bound held at quiescence, mutex released, lookup usable afterwards."),
         "note": ("Preemption only between Python lines of mako code, not inside C calls or between bytecodes; op lists are short; DFS is "
@@ -178,8 +182,10 @@ CHECKS = {
         "technique": "hypothesis-generated inheritance chains; chain model (self/next/parent/local resolution, base-most block rule)",
         "text": ("Chains of 1..5 templates declaring random subsets of defs, named blocks (incl. nested), module attributes and "
                  "bodies that call self/next/parent/local members, self.attr / next.attr, next.body(x=..) / self.body(), with static "
-                 "and dynamic inherit targets, are rendered and compared with an independent chain model; generated negative cases "
-                 "(duplicate block, block/def clash, named block in def / call) must raise CompileException. Sampled (~3k quick, ~96k thorough)."),
+                 "and dynamic, absolute and relative inherit targets (levels placed in nested directories, decoy templates of the same file name in "
+                 "the other directories), optionally including a second, independent generated chain through <%include> from a level that has "
+                 "a parent, are rendered and compared with an independent chain model; generated negative cases "
+                 "(duplicate block, block/def clash, named block in def / call) must raise CompileException. Sampled (~14k quick, ~100k thorough)."),
         "note": "Trusted: the chain model in vf/props/c06.py. Only calls that the model resolves are generated.",
     },
     "C07": {
@@ -242,7 +248,8 @@ CHECKS = {
     "C01": {
         "level": "exploration",
         "technique": "exhaustive token-string sweep + hypothesis documents; parse-tree-to-source accounting round trip, by-construction expected output, CPU budget",
-        "text": ("(a) every concatenation of <=4 (quick) / <=5 (thorough) tokens of a 27-token directive alphabet is lexed: "
+        "text": ("(a) every concatenation of <=4 (quick) / <=5 (thorough) tokens of a 28-token directive alphabet, and of a second 14-token alphabet "
+                 "(form feed, VT, NBSP, em space before % / ##, control lines, backslash-newline), is lexed: "
                  "the lexer must return a tree or raise Syntax/CompileException, the tree must account for every source "
                  "character at the reported positions (vf.gen.account), and text-only trees must render to their Text "
                  "contents; (b) hypothesis documents assembled from (source, expected output) segments - arbitrary Unicode "
